@@ -7,6 +7,7 @@ import (
 	"os"
 	"os/exec"
 	"path/filepath"
+	"regexp"
 	"runtime"
 	"sort"
 	"strconv"
@@ -109,6 +110,36 @@ func matchKnown(k []KnownFinding, prop string, v *sx.Violation) *KnownFinding {
 		}
 	}
 	return nil
+}
+
+var quotedRe = regexp.MustCompile(`"((?:[^"\\]|\\.)*)"`)
+
+// onlyKnownLabels: the native run failed, and every failing assertion label is the label of a listed known finding.
+func onlyKnownLabels(known []KnownFinding, prop, detail string) bool {
+	i := strings.Index(detail, "failures=[")
+	if i < 0 || !strings.Contains(detail, "panic=<nil>") {
+		return false
+	}
+	seg := detail[i+len("failures=["):]
+	if j := strings.Index(seg, "] skipped="); j >= 0 {
+		seg = seg[:j]
+	}
+	ms := quotedRe.FindAllStringSubmatch(seg, -1)
+	if len(ms) == 0 {
+		return false
+	}
+	for _, m := range ms {
+		ok := false
+		for _, k := range known {
+			if k.State == "known" && k.Property == prop && k.Label == m[1] {
+				ok = true
+			}
+		}
+		if !ok {
+			return false
+		}
+	}
+	return true
 }
 
 type cexFile struct {
@@ -247,7 +278,7 @@ func cmdCheck(args []string) int {
 				trace, _ := smp["trace_full"].([]string)
 				delete(smp, "trace_full")
 				cf := &cexFile{Property: id, Harness: r.Fn, Dir: r.Dir, Pkg: r.Pkg, Kind: "sample", Label: "", Model: model, Choices: choices, Trace: trace, Tier: tier}
-				if r.P[ti] == 0 {
+				if r.P[ti] == 0 && len(r.SwitchOn) == 0 {
 					cf.Trace = nil // sequential harness: no schedule to enforce
 				}
 				cexPath := filepath.Join(outDir, fmt.Sprintf("sample-%s-%d.json", r.Label(), si))
@@ -262,7 +293,10 @@ func cmdCheck(args []string) int {
 					ev.NativeSkipped++
 				default:
 					ev.NativeDisagree = append(ev.NativeDisagree, r.Label()+": "+trunc(detail, 300))
-					if r.NativeLenient {
+					if onlyKnownLabels(known, id, detail) {
+						// the real scheduler took the sampled inputs down a schedule on which a listed known finding shows
+						fmt.Printf("  note: native re-run of a sampled path of %s shows a listed known finding under the real scheduler: %s\n", r.Label(), trunc(detail, 200))
+					} else if r.NativeLenient {
 						fmt.Printf("  note: native re-run of a sampled path of %s differs (schedule-dependent harness): %s\n", r.Label(), trunc(detail, 200))
 					} else {
 						fmt.Printf("INCONCLUSIVE: a sampled symbolic path of %s does not behave the same natively (encoding or stub defect): %s\n", r.Label(), trunc(detail, 400))
